@@ -327,7 +327,20 @@ func needQuoted(a Atom) bool {
 }
 
 func quote(s string) string {
-	return fmt.Sprintf("'%s'", quotedAtomEscapePattern.ReplaceAllStringFunc(s, quotedIdentEscape))
+	s = quotedAtomEscapePattern.ReplaceAllStringFunc(s, quotedIdentEscape)
+
+	// Whatever else the reader doesn't take inside quotes is written as a hexadecimal escape.
+	var sb strings.Builder
+	_ = sb.WriteByte('\'')
+	for _, r := range s {
+		if r == '\\' || r == '\'' || isSingleQuotedCharacter(r) {
+			_, _ = sb.WriteRune(r)
+			continue
+		}
+		_, _ = fmt.Fprintf(&sb, `\x%x\`, r)
+	}
+	_ = sb.WriteByte('\'')
+	return sb.String()
 }
 
 func quotedIdentEscape(s string) string {
